@@ -58,8 +58,6 @@ func sisGrid(si *sisInst, thorough bool) []sisParam {
 			maxes := []int{1, exact, exact + 1, 3*exact + 2}
 			if thorough {
 				maxes = append(maxes, 0, 2*exact, 7*exact+3)
-			} else if ld >= 7 && si.bytes > 8 {
-				maxes = []int{exact + 1} // bls12-377: big.Int oracle, keep quick short
 			}
 			seen := map[int]bool{}
 			for k, m := range maxes {
@@ -203,6 +201,9 @@ func runSis[E any, P fields.Ptr[E]](env *sisEnv, si *sisInst, f *fields.Field[E,
 		rnd := func(int) *big.Int { return r.BigBelow(q) }
 		var ins []input
 		counts := []int{0, 1, p.max / 2, p.max - 1, p.max}
+		if c.Thorough() {
+			counts = append(counts, p.max/3, 2*p.max/3, p.max-2)
+		}
 		seenN := map[int]bool{}
 		for _, n := range counts {
 			if n < 0 || n > p.max || seenN[n] {
